@@ -248,7 +248,7 @@ where
     let mut got = String::from("got");
     let mut k = 0;
     while k < n {
-        match tokio::time::timeout(Duration::from_millis(if cfg.size_class >= 5 { 6000 } else { 1200 }), subscriber.next()).await {
+        match tokio::time::timeout(Duration::from_millis(if cfg.size_class >= 5 { 45000 } else { 2500 }), subscriber.next()).await {
             Ok(Some(Ok(item))) => {
                 let _ = write!(got, " {}", hex(&to_bytes(&item)));
                 k += 1;
@@ -272,7 +272,7 @@ where
     }
     let _ = writeln!(out, "{}", got);
     loop {
-        match tokio::time::timeout(Duration::from_millis(if cfg.size_class >= 5 { 1500 } else { 150 }), raw_st.next()).await {
+        match tokio::time::timeout(Duration::from_millis(if cfg.size_class >= 5 { 4000 } else { 150 }), raw_st.next()).await {
             Ok(Some(Ok(Frame::Message(p)))) => {
                 let _ = writeln!(out, "raw M {}", hex(&p.message));
             }
